@@ -155,6 +155,18 @@ def run(ctx: Ctx) -> None:
             leaf = term[-1]
             stats["types"].add(term)
             legs = [False] + ([True] if (c["variant"] == "plain" and len(term) <= 2) else [])
+            if term in (("dc0",), ("dct",)) and c["variant"] == "plain" and c["shape"] == "single":
+                # the leaf dataclass itself as the top-level object: a zero-column batch on the wire
+                for inst in T.leaf_values(leaf, c["k"], rng, 2):
+                    outcome, detail = "equal", {}
+                    try:
+                        back = type(inst).deserialize_from_bytes(inst.serialize_to_bytes())
+                        if not (type(back) is type(inst) and T.same(back, inst)):
+                            outcome, detail = "changed", {"sent": T.show(inst), "got": T.show(back)}
+                    except Exception as e:  # noqa: BLE001
+                        outcome, detail = "error", {"sent": T.show(inst), "error": f"{type(e).__name__}: {str(e)[:160]}"}
+                    obs.append(_o(c, "call", outcome, False, {**detail, "leg": "standalone", "expected": exp}))
+                    ctx.case([term, "standalone", T.show(inst)])
             for state in legs:
                 cls, err = build_class(term, "plain" if c["variant"] == "default" else c["variant"], state)
                 if err is not None:
@@ -236,7 +248,7 @@ def run(ctx: Ctx) -> None:
                 key = f"{cl}/{family(c['t'])}/{o['obs']['outcome']}"
                 byfam[key] = byfam.get(key, 0) + 1
                 ctx.violation(cl, {"family": family(c["t"]), "term": "/".join(c["t"]), "shape": c["shape"], "k": c["k"],
-                                   "variant": c["variant"], "leg": o["_c"].get("leg")},
+                                   "variant": c["variant"], "newtype_over": c["t"][-1] if c["t"][-1] in ("nt_enum", "nt_dc") else "-", "leg": o["_c"].get("leg")},
                               {"observed": o["obs"], "concrete": o["_c"]})
         # a supported annotation refused at definition time, or an unrepresentable value that came back equal, is a
         # mismatch between the grammar and the code, not a violation: recorded as drift
